@@ -12,7 +12,7 @@ ID = "C08"
 BUDGET = {"quick": 3200, "thorough": 60000}
 RULE = ("Generated: unconstrained layer DAGs (G-any: sums over different scopes, overlapping products, "
         "constant layers), smooth&decomposable DAGs (G-sd, several partitions per scope) and pairs built "
-        "on equal / different vtrees; each with a drawn permutation of every inner layer's input list "
+        "on equal / different vtrees, and twin pairs (two copies of one circuit with several splits of a scope); each with a drawn permutation of every inner layer's input list "
         "and a drawn renumbering of the variables. Oracle: set-based definitions in vlib/defs.py "
         "(iff for smooth/decomposable; soundness for structured-decomposable/compatible) plus invariance "
         "of all answers under input-order permutation, renumbering and operand swap. Non-trivial = the "
@@ -40,13 +40,17 @@ def _perm_inputs(spec, seed):
 @st.composite
 def _case(draw, tier):
     big = tier == "thorough"
-    mode = draw(st.sampled_from(["any", "any", "sd", "pair-same", "pair-diff", "pair-any"]))
+    mode = draw(st.sampled_from(["any", "any", "sd", "pair-same", "pair-diff", "pair-any", "pair-twin"]))
     mv = 5 if big else 4
     common = dict(input_types=("emb",), max_K=2, gauss_lp=False)
     if mode == "any":
         a = draw(gen.any_circuit(max_vars=mv, max_layers=12 if big else 8)); b = None
     elif mode == "sd":
         a = draw(gen.sd_circuit(max_vars=mv, structured=draw(st.booleans()), **common)); b = None
+    elif mode == "pair-twin":  # two separately built copies of one (usually not structured-decomposable) circuit
+        a = draw(st.one_of(gen.sd_circuit(max_vars=mv, structured=False, max_parts=3, **common),
+                           gen.any_circuit(max_vars=mv, max_layers=8)))
+        b = a
     elif mode == "pair-same":
         a, b = draw(gen.sd_pair(max_vars=mv, same_vtree=True, **common))
     elif mode == "pair-diff":
